@@ -15,6 +15,9 @@ import time
 from fractions import Fraction
 
 import z3
+import sys as _sys
+if hasattr(_sys, "set_int_max_str_digits"):
+    _sys.set_int_max_str_digits(0)      # exact rational model values can have thousands of digits
 
 # --------------------------------------------------------------------------- exceptions
 
